@@ -1,7 +1,7 @@
 (* Properties/C12.v — Data() recovers the values the kernel encoded. *)
 From Coq Require Import List Ascii String NArith ZArith Bool Arith.
 Import ListNotations.
-Require Import KV Trim Header Parser ParseProofs ParseBody ParseEnrich ParseSockaddr.
+Require Import KV Trim Header Parser ParseProofs ParseBody ParseEnrich ParseSockaddr ParseExecve.
 Require Hex.
 
 (* unsafe strings travel as upper-case hex: decoding gives back every byte string *)
@@ -40,6 +40,18 @@ Proof. exact data_of_plain_body. Qed.
 Theorem C12_hex_field_decodes : forall k m bs v0, kv_get (L k) m = Some (Hex.hex_upper bs, v0) ->
   exists m', hex_field k m = Some m' /\ kv_get (L k) m' = Some (Hex.hex_upper bs, nul_to_space bs).
 Proof. exact hex_field_decodes. Qed.
+
+(* EXECVE: with a numeric argc and every argument present, each a0 .. a(argc-1) is decoded when it is hex
+   (the bytes before the first NUL) and kept otherwise; no other field changes *)
+Theorem C12_execve_arguments : forall m o argc count, kv_get (L "argc") m = Some (o, argc) -> argc <> [] ->
+  read_num digit_of 10 argc 0%N = Some count -> (count < 2 ^ 32)%N -> (N.to_nat count <= List.length m)%nat ->
+  (forall j, (j < count)%N -> kv_get (akey j) m <> None) ->
+  exists m', do_execve m = Some m' /\
+    (forall k, (forall j, (j < count)%N -> k <> akey j) -> kv_get k m' = kv_get k m) /\
+    (forall j orig v, (j < count)%N -> kv_get (akey j) m = Some (orig, v) -> kv_get (akey j) m' = Some (orig, decoded orig v)).
+Proof. exact execve_arguments. Qed.
+Theorem C12_execve_hex_argument : forall bs v, forallb (fun x => negb (Ascii.eqb x nul)) bs = true -> decoded (Hex.hex_upper bs) v = bs.
+Proof. exact decoded_hex. Qed.
 
 (* socket addresses written as hex of struct sockaddr: IPv4 (family, dotted address, port in network order) and
    unix (family, path up to the first NUL), for every address, port and path *)
@@ -83,6 +95,8 @@ Print Assumptions C12_body_tokenised.
 Print Assumptions C12_fields_extracted.
 Print Assumptions C12_data_keeps_plain_fields.
 Print Assumptions C12_hex_field_decodes.
+Print Assumptions C12_execve_arguments.
+Print Assumptions C12_execve_hex_argument.
 Print Assumptions C12_sockaddr_ipv4.
 Print Assumptions C12_sockaddr_unix.
 Print Assumptions C12_result_rule.
